@@ -488,7 +488,7 @@ impl SubCheck for Tables {
 		"tables"
 	}
 	fn cases(&self, tier: Tier) -> u32 {
-		tier.pick(15_000, 400_000)
+		tier.pick(150_000, 3_000_000)
 	}
 	fn strategy(&self, tier: Tier) -> BoxedStrategy<C18Case> {
 		let max = tier.pick(20usize, 60);
